@@ -161,7 +161,7 @@ def run(chk):
     definition_phase(chk, workers)
     chk.assumptions += [
         "mixed-context phase: the reference value of a custom operation = that operation instantiated alone and evaluated (SimpleEvaluator has no Custom arm); "
-        "definition phase: comparisons, Min, Max, Clip2K, Mux (bits), Not, Or, SortByIntegerKey are judged against their TLA+ definitions (InstSem.tla); "
+        "definition phase: comparisons, Min, Max, Clip2K, Mux, Not, Or, SortByIntegerKey are judged against their TLA+ definitions (InstSem.tla); "
         "fixed-point / approximation operations only against the instantiated-alone reference",
         "operations and parameter values are those of the grid in harness/src/bin/inline.rs op_grid (every struct field varied, 2-3 values, 2 argument types)",
         "large dependency closures are explored by the pass model in one fixed order, small ones in every order",
